@@ -82,7 +82,7 @@ def handleUp (l : Line) : IO Unit := do
   let day := (l.nat? "day").getD 0
   let user := hexD (l.getD "user")
   let withData := l.getD "store" == "local"
-  let env : Env := { day := day, user := user, time := [84] }
+  let env : Env := { day := day, user := user, time := Bytes.ofString "2006-01-02T15:04:05Z" }
   let reqs := ((l.getD "reqs").splitOn ";").filterMap parseReq
   let mut s : Sys := {}
   let mut step := 0
@@ -99,11 +99,6 @@ def handleUp (l : Line) : IO Unit := do
     let fail := Spec.UploadAtomic.mustFail env req (cutFlag != 0)
     let modelOk := match o.resp with | .ok _ => true | .error _ => false
     let mut kf : List String := []
-    match req.fault with
-    | some f =>
-      if !f.sticky && (Spec.UploadAtomic.separatorOps env req.parts 0).contains f.k && modelOk then kf := kf ++ ["N20a"]
-      if f.leaves && (Spec.UploadAtomic.closeOps env req.parts 0).contains f.k then kf := kf ++ ["N20b"]
-    | none => pure ()
     if cutFlag != 0 && modelOk && !Spec.UploadAtomic.structuralFault req then kf := kf ++ ["N20c"]
     let kfs := if kf.isEmpty then "" else " kf=" ++ "+".intercalate kf
     if fail then
